@@ -8,6 +8,7 @@ import (
 	"time"
 
 	"github.com/pion/interceptor"
+	"github.com/pion/interceptor/pkg/cc"
 	"github.com/pion/interceptor/pkg/flexfec"
 	"github.com/pion/interceptor/pkg/gcc"
 	"github.com/pion/interceptor/pkg/jitterbuffer"
@@ -87,6 +88,8 @@ func newDriver(comp int64, cfg []int64) driver {
 		return newPcDrv(arg(0))
 	case compHIST:
 		return &histDrv{h: rtpfb.C12NewHistory()}
+	case compGW:
+		return newGwDrv(arg(0))
 	}
 
 	return nil
@@ -688,7 +691,7 @@ func (d *lbDrv) apply(o opx) []entry {
 	if o.Op == 1 {
 		_, _ = d.p.Write(&rtp.Header{Version: 2, SSRC: 1}, make([]byte, 1000), nil)
 	}
-	if o.Op == 3 { // Close (only in replays: see design note, candidate finding write-after-close)
+	if o.Op == 3 { // Close: the pacing goroutine has returned, Write rejects packets afterwards
 		_ = d.p.Close()
 		d.closed = true
 	}
@@ -778,6 +781,133 @@ func fqCase(r *rand.Rand, comp, mode int64) c12Case {
 	})
 
 	return c12Case{Comp: comp, Cfg: []int64{mode}, Name: fmt.Sprintf("queue-mode%d", mode), Ops: ops}
+}
+
+// fqCloseCase: leaky-bucket pacer with a generous budget; the pacer is closed
+// at the start of the third phase (the queue is drained at every phase end
+// before): packets written afterwards must not be retained.
+func fqCloseCase(r *rand.Rand) c12Case {
+	n := 50 + r.Intn(100)
+	ops := phased(r, 4, func(p int, _ *rand.Rand) []opx {
+		var o []opx
+		if p == 2 {
+			o = append(o, opx{Op: 3, Args: []int64{}, Sample: true})
+		}
+		for i := 0; i < n; i++ {
+			o = append(o, opx{Op: 1, Args: []int64{}, Sample: p >= 2 && i%10 == 0})
+		}
+
+		return o
+	})
+
+	return c12Case{Comp: compLB, Cfg: []int64{1}, Name: "queue-mode1+close", Ops: ops}
+}
+
+// ---- cc interceptor + gcc send-side BWE + pacer: per-stream writers ----
+// The real cc interceptor is driven through BindLocalStream /
+// UnbindLocalStream with the leaky-bucket pacer (cfg 0) or gcc.NewNoOpPacer
+// (cfg 1). The size of the pacer's ssrcToWriter map is read through the
+// existing probe VerifC11Stream: the map's keys are SSRCs that were bound, so
+// counting the probe over every SSRC ever bound is len(ssrcToWriter).
+type gwDrv struct {
+	base
+	i    interceptor.Interceptor
+	seen map[int64]bool
+}
+
+type gwProbe interface {
+	VerifC11Stream(ssrc uint32) (bool, bool)
+}
+
+func newGwDrv(pacer int64) *gwDrv {
+	f, err := cc.NewInterceptor(func() (cc.BandwidthEstimator, error) {
+		if pacer == 1 {
+			return gcc.NewSendSideBWE(gcc.SendSideBWEPacer(gcc.NewNoOpPacer()))
+		}
+
+		return gcc.NewSendSideBWE()
+	})
+	if err != nil {
+		panic(err)
+	}
+	i, err := f.NewInterceptor("c12")
+	if err != nil {
+		panic(err)
+	}
+	if _, ok := i.(gwProbe); !ok {
+		panic("cc interceptor: probe VerifC11Stream missing")
+	}
+
+	return &gwDrv{i: i, seen: map[int64]bool{}}
+}
+
+func (d *gwDrv) apply(o opx) []entry {
+	info := &interceptor.StreamInfo{SSRC: uint32(o.Args[0])} //nolint:gosec
+	if o.Op == 1 {
+		d.seen[o.Args[0]] = true
+		d.i.BindLocalStream(info, interceptor.RTPWriterFunc(
+			func(*rtp.Header, []byte, interceptor.Attributes) (int, error) { return 0, nil }))
+	} else {
+		d.i.UnbindLocalStream(info)
+	}
+
+	return one(o)
+}
+
+func (d *gwDrv) sizes() []int64 {
+	p, _ := d.i.(gwProbe)
+	n := int64(0)
+	for s := range d.seen {
+		if ok, _ := p.VerifC11Stream(uint32(s)); ok { //nolint:gosec
+			n++
+		}
+	}
+
+	return []int64{n}
+}
+func (d *gwDrv) close() { _ = d.i.Close() }
+
+// gwCase: churn = every phase binds fresh SSRCs and unbinds them again;
+// otherwise random bind / unbind / re-bind / double unbind over a small set.
+func gwCase(r *rand.Rand, pacer int64, churn bool) c12Case {
+	next := int64(1)
+	ops := phased(r, 4, func(_ int, r *rand.Rand) []opx {
+		var o []opx
+		if churn {
+			k := 20 + r.Intn(30)
+			var mine []int64
+			for i := 0; i < k; i++ {
+				mine = append(mine, next)
+				o = append(o, opx{Op: 1, Args: []int64{next}, Sample: i%5 == 0})
+				next++
+			}
+			for i, s := range mine {
+				o = append(o, opx{Op: 2, Args: []int64{s}, Sample: i%5 == 0 || i == len(mine)-1})
+			}
+
+			return o
+		}
+		ns := 2 + r.Intn(6)
+		for i := 0; i < 60; i++ {
+			s := int64(1 + r.Intn(ns))
+			if r.Intn(5) < 3 {
+				o = append(o, opx{Op: 1, Args: []int64{s}, Sample: true})
+			} else {
+				o = append(o, opx{Op: 2, Args: []int64{s}, Sample: true})
+			}
+		}
+		for s := 1; s <= ns; s++ {
+			o = append(o, opx{Op: 2, Args: []int64{int64(s)}, Sample: true})
+		}
+
+		return o
+	})
+	name := "bind-unbind-random"
+	if churn {
+		name = "bind-unbind-churn"
+	}
+
+	return c12Case{Comp: compGW, Cfg: []int64{pacer}, Name: name, Ops: ops}
 }
 
 // ---- rtpfb history ----
